@@ -854,8 +854,9 @@ def run_iscsi(ctx):
                 dev = s = None
                 gc.collect()
                 ctx.count("iscsi_objects_dropped")
-                if len(ctxs) == 1 and ctxs[0].disconnects != 1:
-                    ctx.fail("C15:iscsi.session_released_again_when_object_dropped", "disconnect() ran %d times once the released device object was garbage collected" % ctxs[0].disconnects, wit)
+                every = list(isc.contexts)  # (the first session and the ones of the later open(url) calls)
+                if any(c.disconnects != 1 for c in every):
+                    ctx.fail("C15:iscsi.session_released_again_when_object_dropped", "disconnect() ran %r times on the device's sessions once the released device object was garbage collected" % [c.disconnects for c in every], wit)
 
 
 def finalize(merged, tier):
